@@ -527,6 +527,7 @@ fn emit_fn(cx: &mut Ctx, specs: &mut Specs, em: &mut Emitter, ex: &Extract, file
     }
 
     // A3: lift the k-th async block
+    let mut deferred_errs: Vec<String> = vec![];   // (raised once the function has its name, so that they count against this function only)
     let mut captured: Vec<(String, syn::Type)> = vec![];
     let mut lifted = false;
     let mut ret_ty: Option<syn::Type> = match &f.sig.output { syn::ReturnType::Type(_, t) => Some((**t).clone()), syn::ReturnType::Default => None };
@@ -548,12 +549,13 @@ fn emit_fn(cx: &mut Ctx, specs: &mut Specs, em: &mut Emitter, ex: &Extract, file
             let self_name = fd.im.as_ref().map(|im| type_head(&im.self_ty)).unwrap_or_default();
             let Some(defs) = struct_fields(file, &self_name) else { cx.err(format!("lost anchor: struct {} in {}", self_name, ex.file)); return; };
             for (n, t) in defs { if fields.contains(&n) { captured.push((n, t)); } }
-            if fields.iter().any(|n| n == "self") { cx.err(format!("outside dialect: async block {} of {} captures `self` as a whole", k, ex.path)); }
+            if fields.iter().any(|n| n == "self") { deferred_errs.push(format!("outside dialect: async block {} of {} captures `self` as a whole", k, ex.path)); }
         }
     }
     // from here on errors belong to this function (its name in the generated file and in the map)
     let final_name = if let Some(k) = ex.opt("key") { k } else if (!lifted && fd.im.is_some()) || in_trait.is_some() { ex.path.clone() } else { name.clone() };
     cx.cur_fn = final_name.clone();
+    for e in deferred_errs { cx.err(e); }
     let drop_this = cx.dropbody.contains(&final_name);
     // A6: `impl Future for T { fn poll(self: Pin<&mut Self>, cx) -> Poll<O> { <place>.poll_unpin(cx).map(|p| F) } }` -> `fn await_(&mut self) -> O { let p = <place>.poll_ready(); F }`
     if ex.opt("poll").as_deref() == Some("yes") {
